@@ -61,7 +61,8 @@ IntU64 == {"int_u64lo", "int_u64max"}                                          \
 IntBeyond == {"int_2p64", "int_below", "int_big"}                              \* 2^64, -2^63-1, > 64 bits
 FltNonFinite == {"flt_nan", "flt_pinf", "flt_ninf"}
 RichStr == {"path"}
-RichIso == {"date", "time", "datetime", "time_aware"}
+RichIso == {"date", "time", "datetime", "time_aware"}                          \* time_aware: a time with tzinfo (known finding F9);
+                                                                               \* F10 (5-digit fraction) is a WITNESS of class time
 RichComplex == {"complex"}
 RichUnlisted == {"uuid", "enum"}                                               \* encoded today; not in the statement
 Unencodable == {"txt_surrogate", "bytes_utf8", "bytes_bad", "unsupported", "too_deep"}   \* too_deep: nested >= 254
